@@ -72,3 +72,14 @@ func debugJSONTemporal() {
 	}
 	os.Exit(0)
 }
+
+
+func debugSigs(w *World) {
+	for _, pkg := range []*ssa.Package{w.Repl, w.Root} {
+		for n := range roleSignatures {
+			if f := pkg.Func(n); f != nil {
+				fmt.Printf("%s: %s (table: %s)\n", n, sigKey(f.Signature), roleSignatures[n])
+			}
+		}
+	}
+}
